@@ -499,17 +499,18 @@ Definition octet_value (h : list N) : N :=               (* uriGetOctetValue *)
   | [] => 0
   end.
 
+Fixpoint bset_nth (d : list N) (i : nat) (v : N) : list N :=
+  match d, i with
+  | [], _ => []
+  | _ :: r, O => v :: r
+  | x :: r, S k => x :: bset_nth r k v
+  end.
+
 (* write l into d starting at index i (memcpy into the 16-byte array) *)
 Fixpoint put_at (d : list N) (i : nat) (l : list N) : list N :=
   match l with
   | [] => d
   | x :: r => put_at (bset_nth d i x) (S i) r
-  end
-with bset_nth (d : list N) (i : nat) (v : N) : list N :=
-  match d, i with
-  | [], _ => []
-  | _ :: r, O => v :: r
-  | x :: r, S k => x :: bset_nth r k v
   end.
 
 (* memset(data + from, 0, 16 - from) *)
